@@ -5,7 +5,11 @@ A concretisation `conc` supplies: R (reporter string as written), vol, page, pl,
 words), court (string) and its allowed ids, year, par (parallel reporter).
 """
 
-LEAD = {"none": "", "prose": "We note that ", "see": "See ", "in": "In "}
+LONG = ("The parties briefed the question at length and the trial court took the matter under advisement for several "
+        "months before it ruled that the statute applied to the transaction and that the claim was timely because the "
+        "limitation period had been tolled while the earlier action was pending before another tribunal which later "
+        "declined to hear it on the merits as was explained in ")
+LEAD = {"none": "", "prose": "We note that ", "see": "See ", "in": "In ", "long": LONG}
 PAREN = {"none": "", "simple": " (holding that x)", "nested": " (quoting y (z))", "double": " (holding x) (second)"}
 PAREN_TEXT = {"simple": "holding that x", "nested": "quoting y (z)", "double": "holding x"}
 TERM = {"dot": ".", "semi": ";", "comma": ",", "end": "", "space": " "}
